@@ -16,7 +16,7 @@ def errname(e):
     return type(e).__name__
 
 
-def explore(graph, prog, max_preempt, workdir, limit=4000, variant="terminology"):
+def explore(graph, prog, max_preempt, workdir, limit=4000, variant="terminology", cache="empty"):
     """all schedules with at most max_preempt deviations from 'keep running the current thread'"""
     seen, out = set(), []
     stack = [([], 0)]
@@ -26,7 +26,7 @@ def explore(graph, prog, max_preempt, workdir, limit=4000, variant="terminology"
         if key in seen:
             continue
         seen.add(key)
-        r = sched.run(graph, prog, prefix, workdir, variant)
+        r = sched.run(graph, prog, prefix, workdir, variant, cache)
         r["prefix"], r["preemptions"] = prefix, p
         out.append(r)
         if p < max_preempt:
@@ -43,7 +43,8 @@ def replay(t):
     graph, prog = t["graph"], t["prog"]
     wd = os.path.join(os.environ.get("TMPDIR", C.BUILD), "loader_%d" % os.getpid())
     variant = t.get("variant", "terminology")
-    runs = explore(graph, prog, t["max_preempt"], wd, variant=variant)
+    cache = t.get("cache", "empty")
+    runs = explore(graph, prog, t["max_preempt"], wd, variant=variant, cache=cache)
     names = list(sched.GRAPHS[graph])
     for n, r in enumerate(runs):
         errs = []
@@ -51,16 +52,17 @@ def replay(t):
             errs.append(r["errs"][tid])
         rec = {"fam": "loader", "src": "model", "variant": variant, "graph": graph, "prog": prog, "prefix": r["prefix"], "preemptions": r["preemptions"],
                "results": r["results"], "errs": errs, "deadlock": r["deadlock"], "cached": r["cached"],
+               "cache": cache, "cache_before": r["cache_before"], "cache_after": r["cache_after"],
                "fetchok": {x: sched.fetchable(graph, x) for x in names},
                "expected": {x: sched.expected_sig(graph, x) for x in names},
                "steps": r["steps"], "trace_checked": False, "trace_accepted": True}
         if variant == "terminology" and n % t["sample"] == 0:
             rec["trace_checked"] = True
-            rec["trace_accepted"], rec["trace_reached"] = validate_trace(graph, prog, r["log"], wd)
+            rec["trace_accepted"], rec["trace_reached"] = validate_trace(graph, prog, r["log"], wd, cache)
         yield rec
 
 
-def validate_trace(graph, prog, log, wd):
+def validate_trace(graph, prog, log, wd, cache="empty"):
     """TLC: is the recorded event log a behaviour of OdmlLoader?"""
     os.makedirs(wd, exist_ok=True)
     tf = os.path.join(wd, "trace.ndjson")
@@ -68,7 +70,7 @@ def validate_trace(graph, prog, log, wd):
         for tid, k, u, th in log:
             f.write(json.dumps({"tid": tid, "k": k, "u": u, "t": th}) + "\n")
     meta = C.fresh_dir(os.path.join(wd, "meta"))
-    env = dict(os.environ, GRAPH=graph, PROG=prog, KNOWN="known", TRACE_FILE=tf,
+    env = dict(os.environ, GRAPH=graph, PROG=prog, KNOWN="known", CACHE=cache, TRACE_FILE=tf,
                JAVA_TOOL_OPTIONS="-Dtlc2.tool.queue.IStateQueue=StateDeque")
     cmd = C.tlc_cmd("LoaderTrace.tla", "LoaderTrace.cfg", 1, meta, xmx="1g")
     p = subprocess.run(cmd, cwd=C.SPEC, env=env, stdout=subprocess.PIPE, stderr=subprocess.STDOUT, text=True)
